@@ -13,6 +13,13 @@ Clauses
               (multicomplex, which forms no difference: <= 64 eps |Q_jk|)
   envelope    |H - exact|_jk <= TOL_H[method|k-bucket] * S_2(j, k) + floor
   hd-quadratic / hd-envelope   the same for Hessdiag(method, order in {2, 4, 6}) with TOL_HD[method|k-bucket]
+  extrapolated-order  |lib - exact| <= C_X[target|method] * min(U_basic, U_x) + floor (Hessian and Hessdiag) with the
+              Richardson-aware unit of multivar.extrapolated_unit: documented leading order p and spacing s (restated
+              there, never read from the library), U_x = truncation terms of total degree >= 2 + p + s t of the
+              majorant series at the window heads + rounding at the window tails, times sum |rule weights| * sum
+              |Richardson weights|, t = min(2, k_est - 1); asserted for the short geometric user sequences (step kind
+              'geo': k_est 3..8, largest step 10^U(-2.5, -0.3) of the certified reach, dynamic range <= 1e4) and for
+              the default configuration of the real-step methods
   consistency |diag(H) - Hessdiag|_j <= K_CONS (est_H_jj + est_diag_j) + floor, asserted when both
               configurations leave >= 2 estimates and reach <= rho_cert/4 (DESIGN C02 / F10)
 floor = 64 eps (|exact| + (n+2) (cond + noise / (h_j h_k)) + 4 M(h_f) / (h_j h_k)) with h the reported final
@@ -38,7 +45,14 @@ FLOOR = 64.0
 QUAD_REAL = 256.0
 QUAD_MCX = 64.0
 K_CONS = 1e4
-C_X = 1e3
+# extrapolated-order clause: |err| <= C_X[target|method] * min(U_basic, U_x) + floor, asserted for the short geometric
+# user sequences (step kind 'geo') and for the default configuration of the real-step methods.  Worst ratios over
+# 8 seeds: Hessian central 0.031, central2 0.006, complex 1e-4, multicomplex 0.26, forward 0.13, backward 7.1;
+# Hessdiag central 279, central2 4.1, complex 0, multicomplex (order 2) 0.008, forward 353, backward 221.
+C_X = {'hessian|central': 1.0, 'hessian|central2': 1.0, 'hessian|complex': 1.0, 'hessian|multicomplex': 10.0,
+       'hessian|forward': 10.0, 'hessian|backward': 100.0,
+       'hessdiag|central': 1e4, 'hessdiag|central2': 100.0, 'hessdiag|complex': 10.0, 'hessdiag|multicomplex': 10.0,
+       'hessdiag|forward': 1e4, 'hessdiag|backward': 1e4}
 OVERFLOW = 1e150
 H_METHODS = ['central', 'central2', 'forward', 'backward', 'complex', 'multicomplex']
 REAL_STEP = ('central', 'central2', 'forward', 'backward')
@@ -125,7 +139,7 @@ class C04(Prop):
 
     def __init__(self):
         self.constants = {'FLOOR_eps_multiple': FLOOR, 'QUAD_REAL_eps_multiple': QUAD_REAL,
-                          'QUAD_MCX_eps_multiple': QUAD_MCX, 'K_CONS': K_CONS, 'C_X': C_X, 'TOL_H': dict(TOL_H),
+                          'QUAD_MCX_eps_multiple': QUAD_MCX, 'K_CONS': K_CONS, 'C_X': dict(C_X), 'TOL_H': dict(TOL_H),
                           'TOL_HD': dict(TOL_HD)}
 
     def strategy(self, tier):
@@ -363,8 +377,11 @@ class C04(Prop):
                 # extrapolated-order: Richardson-aware unit with the documented orders (multivar.extrapolated_unit)
                 if k_est >= 2:
                     aux = self._aux
+                    # offsets actually reached: mixed partials move each coordinate by one step (the majorant sums
+                    # |a_j| + |a_k|), diagonal entries by 2 h (sqrt(2) h for the complex rule x + (i +- 1) h e_j)
+                    wx = w if diag_only else 1.0 if j != k else math.sqrt(2.0) if method == 'complex' else 2.0
                     ux = mv.extrapolated_unit(an, aux['cls'], method, aux['order'] or 2, 0, (j, k),
-                                              [hs[:, j]] if j == k else [hs[:, j], hs[:, k]], k_est, aux['ratio'], w,
+                                              [hs[:, j]] if j == k else [hs[:, j], hs[:, k]], k_est, aux['ratio'], wx,
                                               dform, aux['amp'])
                     if ux is not None and ux[0] > 0 and math.isfinite(ux[0]):
                         U, which, t = ux
@@ -375,14 +392,16 @@ class C04(Prop):
                         ctx.track('x-order err/U|%s%s' % (xlabel, self._kc if method == 'multicomplex' else ''), rx,
                                   dict(prog=mv.describe(case['prog']), x=x, j=j, k=k, lib=lv, exact=ex, U=U, unit=which,
                                        step=spec, k_est=k_est, order=order))
-                        if cfg == 'user' and spec['kind'] == 'geo':
-                            ctx.count('x-order asserted on a short geometric user sequence|%s|%s' % (target, method))
-                        if not CALIBRATE:
-                            b = C_X * U + floor
-                            if rx > C_X:
+                        cx = C_X.get('%s|%s' % (target, method)) if (spec['kind'] == 'geo' or (
+                            cfg == 'default' and method in REAL_STEP)) else None
+                        if cx is not None and not CALIBRATE:
+                            if spec['kind'] == 'geo':
+                                ctx.count('x-order asserted on a short geometric user sequence|%s|%s' % (target, method))
+                            b = cx * U + floor
+                            if rx > cx:
                                 raise Violation('extrapolated-order', '%s[%d,%d]=%r exact %r: |err|=%.3g > C_X(%g)*U(%.3g, %s '
                                                 'unit, t=%d, k_est=%d)+floor(%.3g) (method=%s)'
-                                                % (target, j, k, lv, ex, err, C_X, U, which, t, k_est, floor, method),
+                                                % (target, j, k, lv, ex, err, cx, U, which, t, k_est, floor, method),
                                                 target=target, j=j, k=k, ratio=rx, k_est=k_est)
                 if tol is not None and not CALIBRATE:
                     b = min(b, tol * S + floor)
